@@ -31,6 +31,7 @@ func init() {
 		rule: "one evaluation = one project built once through kit.NewJapi (root from disk) or kit.NewJApiFromFile (root in memory, INCLUDEs from disk) on the sim-disk under a seeded fault plan. " + faults +
 			"Projects: generator (valid), light include graphs (ordinary, hostile parameters, static cycles), 29 special configurations (missing/empty/directory root, macro cycles, malformed INCLUDEs, NUL/invalid UTF-8, truncated directives, ...), corpus. " +
 			"Phase 'scaling' first builds 18 project shapes (tags, methods, bodies, type chains and stars, allOf chains, includes, pastes, macro chains, responses, JSON-RPC ...) at size n and 4n and requires <= 8x the seam operations (deterministic work measure; linear = 4x). " +
+			"Phase 'truncate' builds a document that uses every lexical construct cut at every byte offset x 3 line-ending conventions x 4 trailing bytes. " +
 			"Oracle: outcome is a catalog or a structured error value; no panic; the worker process survives; <= 5000 file accesses; no hang; no deadlock among goroutines the build starts itself; work (seam operations executed) <= 150 per byte served once above 400 000. " +
 			"non-trivial = at least one fault fired or the project is a hostile/special configuration; distinct = distinct (configuration kind, fired-fault multiset, access-log shape, outcome class) tuples",
 		components: stdComponents,
@@ -78,10 +79,12 @@ func (e diskEngine) Plan(tier string) []Phase {
 	case "C01":
 		// "scaling": one job per shape; the same project at size n and 4n must not need more than 8x
 		// the work (seam operations, counted deterministically; linear = 4x, quadratic = 16x)
+		// "truncate": a document that uses every lexical construct, cut at every byte offset, in three
+		// line-ending conventions, optionally followed by one extra byte (~20 000 builds, a few seconds)
 		if tier == "thorough" {
-			return []Phase{{Mode: "scaling", Count: len(scaleShapes)}, {Mode: "random", Share: 0.7}, {Mode: "sweep", Share: 0.3}}
+			return []Phase{{Mode: "scaling", Count: len(scaleShapes)}, {Mode: "truncate", Count: truncateCount()}, {Mode: "random", Share: 0.7}, {Mode: "sweep", Share: 0.3}}
 		}
-		return []Phase{{Mode: "scaling", Count: len(scaleShapes)}, {Mode: "random", Share: 0.85}, {Mode: "sweep", Share: 0.15}}
+		return []Phase{{Mode: "scaling", Count: len(scaleShapes)}, {Mode: "truncate", Count: truncateCount()}, {Mode: "random", Share: 0.85}, {Mode: "sweep", Share: 0.15}}
 	}
 	return []Phase{{Mode: "random", Share: 1}}
 }
@@ -274,6 +277,11 @@ func (e diskEngine) Gen(job *Job) *Case {
 	}
 	if job.Mode == "alphabet" {
 		return e.genAlphabet(job, c)
+	}
+	if job.Mode == "truncate" {
+		c.Project = genTruncated(job.Index)
+		c.Note = "truncate"
+		return c
 	}
 	if job.Mode == "scaling" {
 		sh := scaleShapes[job.Index%len(scaleShapes)]
@@ -613,7 +621,7 @@ func (e diskEngine) Exec(c *Case, job *Job) *Result {
 	// ---------- distinctness / non-triviality ----------
 	switch e.prop {
 	case "C01":
-		res.NonTrivial = nfired > 0 || strings.HasPrefix(c.Project.Kind, "special") || c.Project.Kind == "macro-graph" || c.Project.Kind == "light-hostile" || c.Project.Kind == "light-cycle"
+		res.NonTrivial = nfired > 0 || strings.HasPrefix(c.Project.Kind, "special") || c.Project.Kind == "macro-graph" || c.Project.Kind == "truncated-rich-document" || c.Project.Kind == "light-hostile" || c.Project.Kind == "light-cycle"
 		res.Key = fmt.Sprintf("%s|%s|%016x|%s", c.Project.Kind, strings.Join(firedKinds, ","), fnv64(shapeStr), o.Class())
 	case "C14":
 		res.NonTrivial = mr.includes > 0
